@@ -71,6 +71,11 @@ claim("C18", "Coq theorems from the parsed table: one ballot per distinct row pa
 claim("C19", "Coq theorems: Lp sum = p-norm^p of the difference of normalised ranking distributions (independent of the key order), symmetry, zero iff same distribution, invariance under reordering/condensing/rescaling, triangle inequality for p=1, inf (over Q), p=2 (Cauchy-Schwarz, root-free) and every natural p (Minkowski over R via convexity); ballot graph: node and edge sets for n = 2..6 by kernel-checked reflection against all-n characterisations of the spec, node weights add up to the total. Per-run correspondence (exact sums; floats within 1e-9) and exact graph comparison for n = 2..6.",
       COMMON_NOTE + "Only c19_triangle_p / c19_minkowski* / c19_pow_convex depend on axioms: ClassicalDedekindReals.sig_forall_dec and FunctionalExtensionality.functional_extensionality_dep (Coq.Reals). The graph theorems use vm_compute (n=6: ~90 s).")
 
+claim("C14", "Coq theorems for every draw ('every stream'): Plackett-Luce / short PL ballots (length, no repeats, declared candidates, zero-support candidates only as the final tied group, completeness for name-PL), cumulative ballots distribute exactly num_votes points, table samplers, slate ballot types are arrangements of the slate multiset and slate ballots are complete, MCMC chain states are permutations of the seed, spatial ballots are stable sorts, AlternatingCrossover truncation characterised; common tail: per-bloc condense preserves weights, by-bloc profiles add up to the aggregate, total weight = sum of pool sizes (= N for apportioned sizes), positive whole weights. Per-run correspondence of 13 generator classes under recorded numpy/random streams + well-formedness oracle on all 16.",
+      COMMON_NOTE + "apportionment.compute (Huntington-Hill) is an external oracle: checked per run to be called with the documented proportions and N, to sum to N and to equal an independent call. ImpartialCulture/IAC (Dirichlet table) and CambridgeSampler (pickled data) have no Gallina model: oracle only. Known findings: AlternatingCrossover truncation, MCMC corner cases.")
+claim("C16", "Coq theorems over finite rational distributions: Plackett-Luce law (mass 1, closed-form probability, support = what the model's core accepts), iid law for cumulative ballots, slate-type sampler = cohesion-weighted draws renormalised when a slate is used up (bin characterisation), exact samplers draw from the C15 tables, name-BT MCMC detailed balance and stationarity for all sizes, slate-BT MCMC detailed balance exactly for cohesion >= 1/2 (machine-checked refutation below 1/2), spatial ballots sorted by distance for every stream, AlternatingCrossover misalignment refuted with a witness. Per-run: the ARGUMENTS handed to the primitives (population aligned with p, size, replace, tables) are compared with the model's and with the documented parameters.",
+      COMMON_NOTE + "Laws of numpy.random.choice / uniform / random.* and the Dirichlet mean (Impartial Culture) are trusted; no frequency test is used as a verdict. Known findings: AlternatingCrossover internal order, slate-BT MCMC below cohesion 1/2, CambridgeSampler at cohesion 0/1.")
+
 PENDING_REASON = "check under construction in this round (model/proofs being built); will be claimed once its check is live"
 
 checks = []
